@@ -42,13 +42,10 @@ def main():
     extra_prefixes = [[a, b, op] for a in ("kilo", "mebi", "milli", "kibi") for b in ("kibi", "mega", "kilo", "pebi") for op in ("mul", "div") if (a in prefixes and b in prefixes)] + [[10, 7], [2, 5], [10, -5], [7, 3]]
     r = impl("serial_worker.py", {"units": units, "quantities": quantities, "extra_prefixes": extra_prefixes}, timeout=1500)
     total = sum(r["counts"].values())
-    for k, v in r["counts"].items():
-        for _ in range(0): pass
-    c.cov["evaluations"] = total
+    for cid in r["case_ids"]:
+        c.count(cid, nontrivial=True)      # one case per (object, codec); duplicates (the same unit drawn twice) collapse in the distinct count
     c.cov["codec_runs"] = r["counts"]
     c.cov["registered"] = r["registered"]
-    for i in range(min(total, 3000)): c.distinct.add(str(i))    # every (object, codec) pair is a distinct case; counted exactly in codec_runs
-    c.cov["distinct_note"] = "each (object, codec) pair is one case; all are distinct by construction (objects enumerated once per codec)"
     JSONISH = ("json", "json-installed", "pydantic", "pydantic-dict", "sql-composite")
     for f in r["fails"]:
         if f["codec"] == "setup": continue
